@@ -11,6 +11,13 @@ import RV.Base.Proto
                                              nt = 0: an empty GRAPH block); translated by `translateQuads`
     deletewhere n q…                                             (q = s p o g)
     modify W nd B… ni B… nu g… nn g… nw q… M F [v ne c]      M = 0 | 1 n q… (UNION branch) | 2 n v… (sub-select projection)           (nd, ni: 0 = clause absent, else count+1)
+    modifyalg W nd B… ni B… nu g… nn g… | ALG            WHERE = rdflib's own translated algebra tree (tokens separated by
+                                             blanks, parentheses included), evaluated by the C04 model of evaluate.py:
+        ALG = ( bgp s p o … ) ( join LAZY a b ) ( leftjoin a b E none|( vars k… ) none|( vars k… ) ) ( filter E a ( vars k… ) NOISO )
+              ( union a b ) ( minus a b none|( vars k… ) none|( vars k… ) ) ( extend a k E ( vars k… ) ) ( graph POS a )
+              ( values ( vars k… ) ( row c… )… ) ( project a ( vars k… ) )
+        E   = ( var k ) ( const t ) ( cmp OP E E ) ( and E E ) ( or E E ) ( not E ) ( bound k ) ( exists ALG ) ( nexists ALG )
+        positions: ?k variable | term number;  cells: term number | U
     clear|drop S DEFAULT|NAMED|ALL|GRAPH g
     add|move|copy S src dst                          -> ok | error | skipped   (skipped = request already failed)
     tabrel b r n | tabns b r ns | tabpn ns l n        -> ok   (what written names denote; harness-owned)
@@ -64,6 +71,11 @@ def termNat : Term → Nat
   | .fresh n => 1000 + n
 
 def nats? (ws : List String) : Option (List Nat) := ws.mapM (·.toNat?)
+
+def bool? (w : String) : Option Bool :=
+  if w = "0" then some false else if w = "1" then some true else none
+
+def bool01? : String → Option Bool := bool?
 
 /-- take `n` quads (4 numbers each) from the front -/
 def takeQuads : Nat → List Nat → Option (List (Nat × Nat × Nat × Nat) × List Nat)
@@ -167,6 +179,117 @@ def parseModify (ns : List Nat) : Option WModify := do
     | _ => none
   | _ => none
 
+/-! the WHERE clause as rdflib's algebra tree (s-expression; same grammar as the C04 driver, terms = this driver's numbers) -/
+
+inductive SX
+  | atom (s : String)
+  | list (xs : List SX)
+  deriving Inhabited
+
+partial def parseSXList : List String → List SX → Option (List SX × List String)
+  | [], _ => none
+  | ")" :: rest, acc => some (acc.reverse, rest)
+  | "(" :: rest, acc =>
+    match parseSXList rest [] with
+    | some (xs, rest') => parseSXList rest' (SX.list xs :: acc)
+    | none => none
+  | a :: rest, acc => parseSXList rest (SX.atom a :: acc)
+
+def parseSX : List String → Option SX
+  | "(" :: rest =>
+    match parseSXList rest [] with
+    | some (xs, []) => some (.list xs)
+    | _ => none
+  | _ => none
+
+def cTerm? (a : String) : Option C04.Term := (a.toNat?.bind dataTerm?).map toC04
+
+def cPos? (a : String) : Option C04.Pos :=
+  match a.toList with
+  | '?' :: r => (String.ofList r).toNat?.map .var
+  | _ => (cTerm? a).map .const
+
+def sxAtoms? : List SX → Option (List String)
+  | [] => some []
+  | .atom a :: rest => (sxAtoms? rest).map (a :: ·)
+  | _ => none
+
+def cTps? : List String → Option (List C04.TP)
+  | [] => some []
+  | s :: p :: o :: rest => do
+    let s ← cPos? s; let p ← cPos? p; let o ← cPos? o
+    let r ← cTps? rest
+    pure (⟨s, p, o⟩ :: r)
+  | _ => none
+
+def sxVars? : SX → Option (List Nat)
+  | .list (.atom "vars" :: xs) => do (← sxAtoms? xs).mapM (·.toNat?)
+  | _ => none
+
+def sxOVars? : SX → Option (Option (List Nat))
+  | .atom "none" => some none
+  | x => (sxVars? x).map some
+
+def cCell? (a : String) : Option (Option C04.Term) :=
+  if a = "U" then some none else (cTerm? a).map some
+
+def sxRows? : List SX → Option (List (List (Option C04.Term)))
+  | [] => some []
+  | .list (.atom "row" :: cs) :: rest => do
+    let r ← (← sxAtoms? cs).mapM cCell?
+    let rs ← sxRows? rest
+    pure (r :: rs)
+  | _ => none
+
+def cOp? : String → Option C04.CmpOp
+  | "eq" => some .eq | "ne" => some .ne | "lt" => some .lt | "gt" => some .gt
+  | "le" => some .le | "ge" => some .ge | _ => none
+
+mutual
+partial def cExpr? : SX → Option C04.Expr
+  | .list [.atom "var", .atom k] => k.toNat?.map .var
+  | .list [.atom "const", .atom t] => (cTerm? t).map .const
+  | .list [.atom "cmp", .atom o, a, b] => do pure (.cmp (← cOp? o) (← cExpr? a) (← cExpr? b))
+  | .list [.atom "and", a, b] => do pure (.and (← cExpr? a) (← cExpr? b))
+  | .list [.atom "or", a, b] => do pure (.or (← cExpr? a) (← cExpr? b))
+  | .list [.atom "not", a] => do pure (.not (← cExpr? a))
+  | .list [.atom "bound", .atom k] => k.toNat?.map .bound
+  | .list [.atom "exists", p] => do pure (.exists false (← cAlg? p))
+  | .list [.atom "nexists", p] => do pure (.exists true (← cAlg? p))
+  | _ => none
+partial def cAlg? : SX → Option C04.Alg
+  | .list (.atom "bgp" :: xs) => do pure (.bgp (← cTps? (← sxAtoms? xs)))
+  | .list [.atom "join", .atom l, a, b] => do pure (.join (← bool01? l) (← cAlg? a) (← cAlg? b))
+  | .list [.atom "leftjoin", a, b, e, v1, v2] => do
+    pure (.leftJoin (← cAlg? a) (← cAlg? b) (← cExpr? e) (← sxOVars? v1) (← sxOVars? v2))
+  | .list [.atom "filter", e, a, vs, .atom ni] => do
+    pure (.filter (← cExpr? e) (← cAlg? a) (← sxVars? vs) (← bool01? ni))
+  | .list [.atom "union", a, b] => do pure (.union (← cAlg? a) (← cAlg? b))
+  | .list [.atom "minus", a, b, v1, v2] => do pure (.minus (← cAlg? a) (← cAlg? b) (← sxOVars? v1) (← sxOVars? v2))
+  | .list [.atom "extend", a, .atom k, e, vs] => do
+    pure (.extend (← cAlg? a) (← k.toNat?) (← cExpr? e) (← sxVars? vs))
+  | .list [.atom "graph", .atom g, a] => do pure (.graph (← cPos? g) (← cAlg? a))
+  | .list (.atom "values" :: vs :: rows) => do pure (.values (← sxVars? vs) (← sxRows? rows))
+  | .list [.atom "project", a, vs] => do pure (.project (← cAlg? a) (← sxVars? vs))
+  | _ => none
+end
+
+/-- number of columns of the rows: variables are 40…49 -/
+def nVars : Nat := 50
+
+def splitBar : List String → List String × List String
+  | [] => ([], [])
+  | "|" :: rest => ([], rest)
+  | w :: rest => let (a, b) := splitBar rest; (w :: a, b)
+
+/-- `modifyalg`: the clauses as for `modify` (no quad patterns, no filter), then the algebra tree -/
+def parseModifyAlg (ws : List String) : Option WModify := do
+  let (front, sx) := splitBar ws
+  let ns ← nats? front
+  let u ← parseModify (ns ++ [0, 0, 0])
+  let P ← (parseSX sx).bind cAlg?
+  pure { u with core := { u.core with wmode := .alg nVars P } }
+
 def parseData (ws : List String) : Option Written := do
   let ns ← nats? ws
   match ns with
@@ -194,9 +317,6 @@ def target? (c : Cfg) : List String → Option Target
       | some n => Target.graph n)
   | _ => none
 
-def bool? (w : String) : Option Bool :=
-  if w = "0" then some false else if w = "1" then some true else none
-
 def parseOp (c : Cfg) : List String → Option WOp
   | "insertdata" :: ws => (parseData ws).map WOp.insertData
   | "deletedata" :: ws => (parseData ws).map WOp.deleteData
@@ -210,6 +330,7 @@ def parseOp (c : Cfg) : List String → Option WOp
   | "modify" :: ws => do
     let ns ← nats? ws
     (parseModify ns).map WOp.modify
+  | "modifyalg" :: ws => (parseModifyAlg ws).map WOp.modify
   | "clear" :: s :: t => do pure (WOp.other (Op.clear (← bool? s) (← target? c t)))
   | "drop" :: s :: t => do pure (WOp.other (Op.drop (← bool? s) (← target? c t)))
   | [k, s, a, b] => do
